@@ -45,6 +45,9 @@ type act struct {
 	Add  []int  `json:"add"`
 	Univ int    `json:"univ"`
 	Nh   int    `json:"nh"`
+	Lo   int    `json:"lo"`
+	Cnt  int    `json:"cnt"`
+	Step int    `json:"step"`
 }
 
 var nlimbs = map[string]int{"i8": 1, "i16": 1, "i32": 2, "u32": 2, "i64": 4}
@@ -92,7 +95,7 @@ func iterOn[T intT](call func(s []T, pos int, add T, n int) int, w string, L, po
 			s = c
 		}
 	}
-	if s == nil {
+	if s == nil && !(L == 0 && sent%2 == 0) { // a zero-length slice is nil every other time
 		s = make([]T, L)
 		for i := range s {
 			s[i] = T(sent)
@@ -547,6 +550,43 @@ func (r *runner) do(a *act) {
 			}
 			return 0
 		})
+	case "setrun", "unsetrun":
+		// cnt calls of Set / Unset with lo, lo+step, ... as ONE run-length-encoded event
+		chk(a.H)
+		on := a.Op == "setrun"
+		if a.Step < 1 || a.Cnt < 0 {
+			tr.Fatal("bad run %+v", *a)
+		}
+		last := a.Lo + (a.Cnt-1)*a.Step
+		via := "i32"
+		switch {
+		case w.univ == 64:
+			via = "byte"
+			if a.Cnt > 0 && (a.Lo < 0 || last > 255) {
+				tr.Fatal("Bit64.Set takes a byte, run %+v", *a)
+			}
+		case fitsI16(a.Lo) && fitsI16(last) && r.step%2 == 0:
+			via = "i16"
+		}
+		r.emit(tr.E{"op": a.Op, "h": a.H, "lo": a.Lo, "cnt": a.Cnt, "step": a.Step, "via": via}, func() interface{} {
+			for k, i := 0, a.Lo; k < a.Cnt; k, i = k+1, i+a.Step {
+				switch {
+				case via == "byte" && on:
+					w.wd[a.H-1].Set(byte(i))
+				case via == "byte":
+					w.wd[a.H-1].Unset(byte(i))
+				case via == "i16" && on:
+					w.big[a.H-1].SetI16(int16(i))
+				case via == "i16":
+					w.big[a.H-1].UnsetI16(int16(i))
+				case on:
+					w.big[a.H-1].SetI32(int32(i))
+				default:
+					w.big[a.H-1].UnsetI32(int32(i))
+				}
+			}
+			return 0
+		})
 	case "fill":
 		chk(a.H)
 		ms := a.Ms
@@ -798,6 +838,9 @@ func (r *runner) pickN(l int) int {
 	case 6:
 		return 2000
 	case 7:
+		if r.rng.Intn(2) == 0 { // around the word size and its multiples
+			return 64*(1+r.rng.Intn(16)) + r.rng.Intn(3) - 1
+		}
 		return -1 - r.rng.Intn(1<<20)
 	}
 	if l > 0 {
@@ -866,6 +909,14 @@ func (r *runner) shapes1024(nrand int) [][]int {
 	out = append(out, []int{}, seq(0, 1023), []int{0}, []int{63}, []int{64}, []int{1023}, []int{960},
 		[]int{0, 63, 64, 127, 128, 959, 960, 1023}, seq(1, 1023), seq(0, 1022), seq(0, 63), seq(960, 1023),
 		seq(60, 70), seq(0, 8), seq(0, 9), seq(0, 10), seq(64, 72), seq(64, 73), seq(1014, 1023), seq(1015, 1023))
+	// Len = k*64 + {-1, 0, 1}: a prefix, and the same number of members spread at random
+	for i := 0; i < 2; i++ {
+		c := 64*(1+r.rng.Intn(15)) + r.rng.Intn(3) - 1
+		out = append(out, seq(0, c-1))
+		ms := append([]int{}, r.rng.Perm(1024)[:c]...)
+		sort.Ints(ms)
+		out = append(out, ms)
+	}
 	// word k holds k*4+1 members: popcounts 1..61 straddle every threshold
 	{
 		m := map[int]bool{}
@@ -1133,6 +1184,48 @@ func (r *runner) raceRound(univ int, ms []int, src string, G, per int) {
 	}
 }
 
+// apiShapes: the structural operations (iteration, list forms, Reverse, Equal, Len) in shape classes
+// reached through the API itself: never used, filled by a run of Set calls (255/256/257, 1023/1024/
+// 1025, 65535/65536/65537 calls: anything narrowed to 8 or 16 bits on the way wraps there), exactly
+// full, emptied again by a run of Unset calls, one member left, refilled after having been emptied.
+func (r *runner) apiShapes(univ int) {
+	r.reset(univ, 3, "apishapes")
+	look := func(h int) {
+		r.do(&act{Op: "len", H: h})
+		wd := r.widths()[r.rng.Intn(len(r.widths()))]
+		r.do(&act{Op: "iter", H: h, W: wd, Dir: []string{"f", "r"}[r.rng.Intn(2)], N: r.pickN(r.wld.popcount(h)), Pos: r.rng.Intn(3), Add: r.randAdd(wd)})
+		r.do(&act{Op: "getn", H: h, W: "i64", Dir: []string{"f", "r"}[r.rng.Intn(2)], N: r.wld.popcount(h) + 1})
+		r.do(&act{Op: "equal", H: h, G: 3}) // handle 3 is never touched
+		r.do(&act{Op: "rev", H: h, D: 2})
+		r.do(&act{Op: "nlen", H: 2})
+	}
+	look(1) // never used
+	if univ == 64 {
+		for _, c := range []int{63, 64, 65, 255, 256} {
+			r.do(&act{Op: "setrun", H: 1, Lo: 0, Cnt: c, Step: 1})
+			look(1)
+			r.do(&act{Op: "unsetrun", H: 1, Lo: 0, Cnt: c - 1 + r.rng.Intn(2), Step: 1})
+			look(1) // emptied by removals, or one member left
+		}
+		r.do(&act{Op: "setrun", H: 1, Lo: 1, Cnt: 100, Step: 2})
+		look(1)
+		return
+	}
+	counts := []int{255, 256, 257, 1023, 1024, 1025, 65535, 65536, 65537}
+	r.rng.Shuffle(len(counts), func(i, j int) { counts[i], counts[j] = counts[j], counts[i] })
+	for _, c := range counts[:4] {
+		lo := []int{0, 0, -3, 500 - c}[r.rng.Intn(4)] // SetI16 when the run fits int16, else SetI32
+		r.do(&act{Op: "setrun", H: 1, Lo: lo, Cnt: c, Step: 1})
+		look(1)
+		r.do(&act{Op: "unsetrun", H: 1, Lo: lo, Cnt: c - r.rng.Intn(2), Step: 1})
+		look(1) // emptied by removals (or the last member left)
+	}
+	r.do(&act{Op: "setrun", H: 1, Lo: 1, Cnt: 700, Step: 3}) // refilled after having been emptied
+	look(1)
+	r.do(&act{Op: "unsetrun", H: 1, Lo: 1, Cnt: 300, Step: 6})
+	look(1)
+}
+
 // random history of mutations and reads over three handles
 func (r *runner) history(univ, nops int) {
 	r.reset(univ, 3, "rand")
@@ -1281,6 +1374,10 @@ func main() {
 	for i := 0; i < *nhist; i++ {
 		r.history(1024, *nops)
 		r.history(64, *nops)
+	}
+	for i := 0; i < 1+*nhist/20; i++ {
+		r.apiShapes(1024)
+		r.apiShapes(64)
 	}
 	for i := 0; i < *nrace; i++ {
 		r.raceRound(1024, r.smallShape1024(), "race1024", 8, 25)
